@@ -212,4 +212,13 @@ PROPS["C05"] = {
     "class_of": lambda c, r: "%s|%s|%s" % (c["in"]["tag"], sorted(p["class"] for p in (c["in"]["providers"] or [])), c["in"]["deadline"]),
 }
 
+PROPS["C04"] = {
+    "harness": {"kind": "overlay", "pkg": "pkg/p2p/libp2p", "pkgname": "libp2p",
+                "files": ["libp2p/c04_test.go"], "test": "TestVerifC04"},
+    "level_text": "Theorems for every remote transcript (arbitrary frame lists), both directions, every local role, every registry answer and every primitive answer: characterisation of verifyReq (success iff the signature over exactly role||token verifies, to the address of the authenticated transport identity, and - for the exact role string 'provider' - the registry confirmed it; the registry is consulted at most once and only after the signature and address checks passed); a peer is admitted with (A,T) by the responder only if its first frame is such a request and its second frame echoes the node's own address and role, and by the initiator only if the responder first echoed the initiator's own address and role and then presented such a request; a peer obtains the provider role only through the exact string the stake check keys on (role strings regenerated from p2p.go); registration and notification happen only after success, signature/address failures are blocked forever and stake failures for the regenerated durations. Tied to the real handshake.Service built as libp2p.New builds it (real signer, real GetEthAddressFromPeerID) over a scripted stream, and to the real handleConnectReq / Connect on a Service with a fake libp2p host, real peerRegistry, recording notifier and real block list: message kinds per position x signature classes x role strings (incl. case/whitespace variants) x echoes x truncations x write failures x non-secp256k1 transport identity x registry answers x local roles x direction.",
+    "level_note": "Trusted: Lean kernel; harness; libp2p's authentication of the remote peer id (connection security) is assumed; ECDSA recovery/verification answers come from go-ethereum directly and are parameters of the theorems; an unknown role string is admitted with role 'unknown' (allowed by the statement's 'only if', recorded).",
+    "nontrivial_rule": "distinct (tag, direction, level, model observation) cells",
+    "class_of": lambda c, r: "%s|%s|%s|%s" % (c["in"]["tag"], c["in"]["inbound"], c["in"]["level"], json.dumps(r.get("model"), sort_keys=True)),
+}
+
 NOT_CLAIMED = {}
